@@ -1,8 +1,8 @@
 #!/bin/sh
 # usage: tools/try_mutant_wt.sh <patch.diff> <Cxx> [<Cyy> ...]
 # Like try_mutant.sh but leaves /repo alone: applies the change in a scratch worktree of /repo's HEAD and points the
-# checks at it with VERIF_REPO (so several changes can be tried at once).  The evidence files it writes describe the
-# CHANGED tree: re-run the checks on /repo before committing evidence.
+# checks at it with VERIF_REPO (so several changes can be tried at once).  Evidence of these runs goes to .work/ (VERIF_SCRATCH_EVIDENCE),
+# the committed evidence/ always describes /repo itself.
 P=$(readlink -f $1); shift
 W=/tmp/try/$(basename $(dirname $P))_$$
 mkdir -p /tmp/try
@@ -10,7 +10,7 @@ git -C /repo worktree add --detach $W HEAD >/dev/null 2>&1 || { echo "cannot cre
 git -C $W apply "$P" || { echo "patch does not apply"; git -C /repo worktree remove --force $W; exit 2; }
 cd /verif
 for c in "$@"; do
-  VERIF_REPO=$W ./check $c --tier quick > /tmp/try_$c.$$.out 2>&1; rc=$?
+  VERIF_SCRATCH_EVIDENCE=1 VERIF_REPO=$W ./check $c --tier quick > /tmp/try_$c.$$.out 2>&1; rc=$?
   echo "== $(basename $(dirname $P)) $c rc=$rc $(grep -c VIOLATION /tmp/try_$c.$$.out) violation lines; $(grep -E '^C[0-9]+ (ok|FAIL)' /tmp/try_$c.$$.out | cut -c1-120)"
   grep -m2 -E "VIOLATION|MACHINERY" /tmp/try_$c.$$.out | cut -c1-300
   rm -f /tmp/try_$c.$$.out
